@@ -5,8 +5,11 @@ spec/Numscript.tla supplies every well-typed program of the bounded grammar (the
 stream as C22, theorems checked). For a deterministic stride of them the harness runs, through
 MachineNumscriptRuntimeAdapter and DefaultInterpreterMachineAdapter: the well-typed baseline
 (both renderings), ill-typed / missing / negative / malformed variable bindings, stores that do
-not return the requested balances, and every single-token deletion and duplication of the
-rendered text. Oracle: no panic (recovered and reported), termination within the timeout, and
+not return the requested balances, `print` statements (number, monetary, account, asset, string,
+portion, expressions; before / between / after the other statements, also in scripts whose send
+then fails; machine runtime only, through the adapter production uses, which installs no printer),
+and every single-token deletion and duplication of the rendered text. A class of inputs that
+hangs three times is not executed further (each hang costs 30 s); the hangs seen are reported. Oracle: no panic (recovered and reported), termination within the timeout, and
 an error never comes together with a result. Arbitrary byte strings are out of scope.
 """
 import copy
@@ -34,8 +37,14 @@ def run(c):
         c.set("programs_mutated", cnt.get("cases", 0))
         c.set("rule", "distinct = SHA-1 of (script text, variables JSON, store behaviour); non-trivial = the machine compiler "
                       "accepts the script, i.e. the input reaches SetVarsFromJSON / ResolveResources / ResolveBalances / Execute")
+        c.set("print_variants_run", cnt.get("print_variants_run", 0))
+        c.set("print_variants_executed", cnt.get("print_variants_executed", 0))
+        if cnt.get("variants_skipped_after_repeated_hangs", 0):
+            c.set("variants_skipped_after_repeated_hangs", cnt["variants_skipped_after_repeated_hangs"])
         if cnt.get("distinct_nontrivial", 0) < 10000:
             raise vlib.Inconclusive("too few run-time inputs: %s" % cnt)
+        if cnt.get("print_variants_executed", 0) < 1000 and not any(e["kind"].startswith("robust/hang") for e in summ.get("signatures", [])):
+            raise vlib.Inconclusive("too few executed `print` variants: %s" % cnt)
         for s in summ.get("samples", [])[:4]:
             c.sample(s)
         c.assume("run-time half only: inputs are well-typed programs of the bounded grammar of spec/Numscript.tla and their "
